@@ -16,7 +16,7 @@ pub fn to_linear(t: u8, px: &[[f32; 3]], w: usize, h: usize) -> Result<Vec<[f32;
     crate::util::guard2(|| to_linear_inner(t, px, w, h))
 }
 fn to_linear_inner(t: u8, px: &[[f32; 3]], w: usize, h: usize) -> Result<Vec<[f32; 3]>, &'static str> {
-    let rgb = Rgb::new(px.to_vec(), w, h, tc(t), cp(1)).map_err(|_| "ctor")?;
+    let rgb = crate::srcs::rgb(px, w, h, tc(t), cp(1))?;
     match LinearRgb::try_from(rgb) {
         Ok(l) => {
             if l.width() != w || l.height() != h || l.data().len() != px.len() {
@@ -31,7 +31,7 @@ pub fn to_gamma(t: u8, px: &[[f32; 3]], w: usize, h: usize) -> Result<Vec<[f32; 
     crate::util::guard2(|| to_gamma_inner(t, px, w, h))
 }
 fn to_gamma_inner(t: u8, px: &[[f32; 3]], w: usize, h: usize) -> Result<Vec<[f32; 3]>, &'static str> {
-    let lin = LinearRgb::new(px.to_vec(), w, h).map_err(|_| "ctor")?;
+    let lin = crate::srcs::lin(px, w, h)?;
     match Rgb::try_from((lin, tc(t), cp(1))) {
         Ok(r) => {
             if r.width() != w || r.height() != h || r.data().len() != px.len() {
